@@ -113,7 +113,7 @@ def run(ctx):
             "mean": float(np.mean(t.start)), "mean0": np.mean(mat, axis=0), "bincount": np.bincount(t.score), "hist": np.histogram(t.stop, bins=5, range=(0, 100))[0],
             "groups": [(k, [x[3] for x in rows if x[0] == k]) for k in sorted(set(x[0] for x in rows), key=names.index)],
         }
-        big_values = np.array([r.choice([-2 ** 60, 2 ** 60, 1, 1, 3, -2 ** 59, 2 ** 59]) for _ in rows], dtype=np.int64)
+        big_values = np.array([r.choice([-2 ** 60, 2 ** 60, 1, 1, 3, -2 ** 59, 2 ** 59, 2 ** 62, 2 ** 62, -2 ** 62]) for _ in rows], dtype=np.int64)      # totals beyond the int64 range included
         ref["big_values"] = big_values
         ref["big_mean"] = float(sum(int(v) for v in big_values) / max(1, len(big_values)))
         kc = count_kmers(seq_table.sequence, 2)
